@@ -419,6 +419,11 @@ bool modelCall(State &S, const CallBase *CB, const std::string &name, std::vecto
     if (first < 0 && !unboundedTail) { finishCall(S, CB, Val::null()); return true; }
     i128 hiPos = unboundedTail ? ((R.isString && R.sizeRoot >= 0) ? std::max(first < 0 ? olo : first, S.roots[R.sizeRoot].hi + R.sizeK - 1) : lim) : (name == "strchr" && mustFind ? end : last);
     i128 loPos = first < 0 ? lim : first;
+    if (name == "strrchr") {
+      // the last occurrence is not before the last position that definitely holds the character
+      i128 stop = unboundedTail ? lim : end;
+      for (i128 i = olo; i < stop; i++) { ByteCell c = readByte(S, R, i); if (c.cs[ch] && c.cs.count() == 1) loPos = std::max(loPos, i); }
+    }
     if (hiPos < loPos) hiPos = loPos;
     Val found = Val::ptr(sp.reg, 0);
     found.r = ConstantRange::getNonEmpty(APInt(64, (uint64_t)loPos), APInt(64, (uint64_t)hiPos) + 1);
